@@ -10,7 +10,7 @@
 EXTENDS Watch, Json, IOUtils, TLCExt
 Rec == ndJsonDeserialize(IOEnv.TRACE)
 VARIABLES l, bad
-tvars == <<l, bad, disk, cache, watched, out, built, steps>>
+tvars == <<l, bad, disk, cache, bound, watched, out, built, steps>>
 
 FileOf(path) == CASE path = "entry.ts" -> "entry" [] path = "m1.ts" -> "m1" [] path = "m2.ts" -> "m2" [] OTHER -> "?"
 Names(ps) == {FileOf(ps[i]) : i \in DOMAIN ps}
@@ -19,21 +19,33 @@ Check(r) ==
   (IF Names(r.cache) # {f \in Files : cache'[f] # "none"} THEN {"cache-keys-differ-from-model"} ELSE {})
   \cup (IF Names(r.watched) # watched' THEN {"watched-set-differs-from-model"} ELSE {})
   \cup (IF r.built # built' THEN {"rebuild-trigger-differs-from-model"} ELSE {})
-  \cup (IF r.built /\ (r.out.kind # r.fresh.kind \/ r.out.text # r.fresh.text) THEN {"rebuild-differs-from-fresh-process"} ELSE {})
+  \* the property.  Where the model as implemented (open deviations) itself predicts a result other than the fresh one, the
+  \* difference is the recorded finding; anywhere else it is a violation.
+  \cup (IF r.built /\ (r.out.kind # r.fresh.kind \/ r.out.text # r.fresh.text)
+        THEN (IF out' # Fresh(disk') /\ "createDeleteUnnoticed" \in Deviations THEN {"known:createDeleteUnnoticed"}
+              ELSE {"rebuild-differs-from-fresh-process"})
+        ELSE {})
   \cup (IF r.built /\ r.out.kind \notin {"code", "diags"} THEN {"rebuild-produced-neither-code-nor-diagnostics"} ELSE {})
 
 Reset == /\ Rec[l].op = "reset"
          /\ disk' = [entry |-> "e1", m1 |-> "a1", m2 |-> "b1"] /\ cache' = [f \in Files |-> "none"] /\ watched' = {}
+         /\ bound' = [f \in Files |-> {}]
          /\ out' = NoOut /\ built' = FALSE /\ steps' = 0 /\ bad' = {}
 TEdit == /\ Rec[l].op = "edit"
          /\ Edit(FileOf(Rec[l].f), Rec[l].c)
          /\ bad' = Check(Rec[l])
+TCreate == /\ Rec[l].op = "create"
+           /\ Create(FileOf(Rec[l].f), Rec[l].c)
+           /\ bad' = Check(Rec[l])
+TDelete == /\ Rec[l].op = "delete"
+           /\ Delete(FileOf(Rec[l].f))
+           /\ bad' = Check(Rec[l])
 TRebuild == /\ Rec[l].op = "rebuild"
             /\ Rebuild
             /\ bad' = Check(Rec[l])
 
 TraceInit == l = 1 /\ bad = {} /\ Init
-TraceNext == l <= Len(Rec) /\ (Reset \/ TEdit \/ TRebuild) /\ l' = l + 1
+TraceNext == l <= Len(Rec) /\ (Reset \/ TEdit \/ TCreate \/ TDelete \/ TRebuild) /\ l' = l + 1
 TraceSpec == TraceInit /\ [][TraceNext]_tvars
 Accepted ==
   LET consumed == TLCGet("stats").diameter - 1 IN
